@@ -17,20 +17,26 @@ theorem gen_mp_fmt : genMp = canonMp := by decide
 
 /-! ## SSE -/
 
-theorem item_notPing (c : Chunk) : notPing c.item = decide (c ≠ Chunk.ping) := by
-  cases c <;> simp [notPing, Chunk.item, pingItem, hdrItem, nextItem, completeItem, pingText]
+theorem item_notPing (c : Stream.Chunk) : notPing c.item = decide (c ≠ Stream.Chunk.ping) := by
+  cases c <;> simp [notPing, Stream.Chunk.item, pingItem, hdrItem, nextItem, completeItem, pingText]
+
+theorem filter_item (cs : List Stream.Chunk) :
+    (cs.map Stream.Chunk.item).filter notPing = (cs.filter (· ≠ Stream.Chunk.ping)).map Stream.Chunk.item := by
+  simp [List.filter_map, Function.comp_def, item_notPing]
 
 /-- every chunk the machine writes is a whole block when the payloads are single lines -/
 theorem sse_chunks_ok (ka : Bool) (ps : List Bytes) (sched : List Step) (h : ∀ p ∈ ps, OneLine p) :
     ∀ c ∈ sseChunks ka ps sched, c.OK := by
   rcases sse_run_shape sched (sseInit ka ps) rfl with ⟨mid, h1, h2, _⟩
   intro c hc
-  simp only [sseChunks, h1, sseInit] at hc
+  simp only [sseChunks] at hc
+  rw [h1] at hc
   cases c with
   | next p =>
-    have : Chunk.next p ∈ mid.filter (· ≠ Chunk.ping) := by
-      simp at hc
-      simp [hc]
+    have hm : Stream.Chunk.next p ∈ mid := by
+      simp [sseInit] at hc
+      exact hc
+    have : Stream.Chunk.next p ∈ mid.filter (· ≠ Stream.Chunk.ping) := by simp [hm]
     rw [h2] at this
     simp [sseInit] at this
     exact h p this
@@ -39,7 +45,7 @@ theorem sse_chunks_ok (ka : Bool) (ps : List Bytes) (sched : List Step) (h : ∀
 /-- for all payload sequences, keep-alive settings and schedules (at critical-section granularity):
     the stream parses to exactly the items of the chunks written, nothing left over -/
 theorem sse_stream_items (ka : Bool) (ps : List Bytes) (sched : List Step) (h : ∀ p ∈ ps, OneLine p) :
-    parseSSE (sseStream genSse ka ps sched) = ((sseChunks ka ps sched).map Chunk.item, false) := by
+    parseSSE (sseStream genSse ka ps sched) = ((sseChunks ka ps sched).map Stream.Chunk.item, false) := by
   rw [gen_sse_fmt]
   exact parse_chunks _ (sse_chunks_ok ka ps sched h)
 
@@ -53,37 +59,35 @@ theorem sse_parses (ka : Bool) (ps : List Bytes) (sched : List Step) (h : ∀ p 
       (∀ i ∈ mid, i = pingItem ∨ ∃ p ∈ ps, i = nextItem p) ∧
       (ka = false → mid = ps.map nextItem) := by
   rcases sse_run_shape sched (sseInit ka ps) rfl with ⟨mid, h1, h2, h3⟩
-  refine ⟨mid.map Chunk.item, ?_, ?_, ?_, ?_⟩
+  refine ⟨mid.map Stream.Chunk.item, ?_, ?_, ?_, ?_⟩
   · rw [sse_stream_items ka ps sched h]
-    simp [sseChunks, h1, sseInit, Chunk.item]
-  · have : (mid.map Chunk.item).filter notPing = (mid.filter (· ≠ Chunk.ping)).map Chunk.item := by
-      induction mid with
-      | nil => rfl
-      | cons c cs ih =>
-        simp only [List.map_cons, List.filter_cons, item_notPing]
-        by_cases hc : c = Chunk.ping <;> simp [hc, List.filter_map, Function.comp_def, item_notPing]
-    rw [this, h2]
-    simp [sseInit, Chunk.item, Function.comp_def]
+    simp only [sseChunks, h1]
+    simp [sseInit, Stream.Chunk.item]
+  · rw [filter_item, h2]
+    simp [sseInit, Stream.Chunk.item, Function.comp_def]
   · intro i hi
     rcases List.mem_map.1 hi with ⟨c, hc, rfl⟩
-    by_cases hp : c = Chunk.ping
-    · left; simp [hp, Chunk.item]
+    by_cases hp : c = Stream.Chunk.ping
+    · left; simp [hp, Stream.Chunk.item]
     · right
-      have : c ∈ mid.filter (· ≠ Chunk.ping) := by simp [hc, hp]
+      have : c ∈ mid.filter (· ≠ Stream.Chunk.ping) := by simp [hc, hp]
       rw [h2] at this
       simp [sseInit] at this
-      rcases this with ⟨p, hp, rfl⟩
-      exact ⟨p, hp, rfl⟩
+      rcases this with ⟨p, hpp, rfl⟩
+      exact ⟨p, hpp, rfl⟩
   · intro hk
     rw [h3 hk]
-    simp [sseInit, Chunk.item, Function.comp_def]
+    simp [sseInit, Stream.Chunk.item, Function.comp_def]
 
 /-- the same statement through the executable Spec the driver evaluates on the implementation's bytes -/
 theorem sse_spec_holds (ka : Bool) (ps : List Bytes) (sched : List Step) (h : ∀ p ∈ ps, OneLine p) :
     sseSpec ps (parseSSE (sseStream genSse ka ps sched)) = true := by
   rcases sse_parses ka ps sched h with ⟨mid, h1, h2, _, _⟩
-  simp [sseSpec, h1, sseExpected, List.filter_cons, List.filter_append, h2, notPing, hdrItem, pingItem,
-    completeItem, pingText]
+  have hl : (hdrItem :: (mid ++ [completeItem])).getLast? = some completeItem := by
+    rw [← List.cons_append, List.getLast?_concat]
+  have hf : (hdrItem :: (mid ++ [completeItem])).filter notPing = sseExpected ps := by
+    simp [List.filter_cons, List.filter_append, h2, sseExpected, notPing, hdrItem, pingItem, completeItem, pingText]
+  simp [sseSpec, h1, hl, hf]
 
 /-- **client disconnect**: whatever prefix of the stream a client has read, its items are a prefix of
     the items of the whole stream (so: no junk, every payload at most once, in order) -/
